@@ -213,6 +213,10 @@ const SPECIAL: &[&str] = &[
     "+x", "-x", "--- a/x", "+++ b/x", "@@ -1,2 +3,4 @@ foo", "\\ No newline at end of file", "diff --git a/x b/x",
     "index 0000000..1111111 100644", " leading space", "@@", "+", "-", "++", "--", "@@ -0,0 +1 @@", "\\", "new file mode 100644",
     "rename from a", "Binary files a/x and b/x differ", "GIT binary patch", "@@ -1 +1 @@ +x",
+    // content that, behind its +/-/space origin character, reads as patch or mail syntax
+    // ("-- " is the format-patch signature separator, "--- "/"+++ " file headers); added after
+    // a seeded change (decoder cutting the text at "\n-- \n") was missed
+    "- ", "-- ", "+ ", "++ ", "--  ", "- [ ] ", "* ", "> ", "From ", ">From x", "---", "+++", "-- \t", "2.39.2",
 ];
 const UNI: &[&str] = &["h\u{e9}llo w\u{f6}rld", "\u{6f22}\u{5b57}\u{304b}\u{306a}", "\u{1f642} emoji", "x\u{301}y", "\u{feff}bom", "\u{e9}"];
 const CTRL: &[&str] = &["a\u{1}b", "tab\there", "x\ry", "\u{1b}[31mred", "a\u{7f}"];
